@@ -156,3 +156,30 @@ func VerifC18_ClientAddrReal() {
 	verifapi.Assert(got.String() == want, "the address told to the bridge is the sanitised client_ip: a valid, specified IP with a stub port, or empty")
 	verifapi.Assert(got.Network() == "snowflake", "network name")
 }
+
+// VerifC18_MapConcurrent: a lookup that runs while the ring wraps onto the looked-up slot
+// returns the session's own address or nothing - never another session's address.
+func VerifC18_MapConcurrent() {
+	m := newClientIDMap(1)
+	id1, id2 := verifSessionID(0), verifSessionID(1)
+	m.Set(id1, ClientMapAddr("198.51.100.1:1"))
+	var got net.Addr
+	var ok bool
+	done := make(chan bool, 2)
+	go func() {
+		got, ok = m.Get(id1)
+		done <- true
+	}()
+	go func() {
+		m.Set(id2, ClientMapAddr("198.51.100.2:1")) // evicts id1: the ring has one slot
+		done <- true
+	}()
+	<-done
+	<-done
+	verifapi.Cover("lookup raced with eviction")
+	if ok {
+		verifapi.Assert(got == net.Addr(ClientMapAddr("198.51.100.1:1")), "C18: a lookup never returns another session's address")
+	} else {
+		verifapi.Assert(got == nil, "C18: a forgotten session has no address")
+	}
+}
